@@ -22,6 +22,8 @@ func runRound22(c *Ctx, spec *PropSpec) {
 		mirrorContextHasItsOwnVariables(c)
 	case "C08":
 		h2HeaderKeyWithoutValuesSkipped(c)
+	case "C10":
+		resourceManagerCarriedOverWhateverTheType(c)
 	case "C11":
 		tlsTransferInfoRecordedAfterTheHandshake(c)
 		reloadRefusedBeforeTheStopActionIsWritten(c)
@@ -519,8 +521,10 @@ func edfGivesUpOnlyWhenNobodyIsHealthy(c *Ctx) {
 		for _, g := range guardsAt(in.Block()) {
 			switch x := g.Cond.(type) {
 			case *ssa.BinOp:
-				if k, isK := constInt(x.Y); isK && k == 0 && ((x.Op == token.EQL && g.True) || (x.Op == token.NEQ && !g.True)) {
-					if cl, isC := x.X.(*ssa.Call); isC && methodName(cl.Common()) == "Size" {
+				if k, isK := constInt(x.Y); isK {
+					zero := (k == 0 && ((x.Op == token.EQL && g.True) || (x.Op == token.NEQ && !g.True) || (x.Op == token.LEQ && g.True) || (x.Op == token.GTR && !g.True))) ||
+						(k == 1 && ((x.Op == token.LSS && g.True) || (x.Op == token.GEQ && !g.True)))
+					if cl, isC := x.X.(*ssa.Call); isC && zero && methodName(cl.Common()) == "Size" {
 						why = "size == 0"
 					}
 				}
@@ -869,5 +873,36 @@ func c06DrawMeasuredAgainstTheMergedTable(c *Ctx) {
 	})
 	if n == 0 {
 		c.Unresolved(rule, "no operation on the draw in RouteRuleImplBase.ClusterName")
+	}
+}
+
+// ---------------------------------------------------------------------------------------------------------------------
+// C10.TYPE (S345, repair 169): the counters of a cluster follow its hosts whatever the update changes. The inherited
+// hosts are re-pointed to the new cluster info, and the pools read host.ClusterInfo().ResourceManager() at admission and
+// again at release; when the carry-over of the old resource manager is skipped because the cluster *type* changed
+// (STRICT_DNS <-> EDS), the requests in flight are released on a fresh manager: its counter stays at -N and
+// max_requests / max_connections admit N more than configured. Clause: no return of
+// UpdateClusterResourceManagerHandler is guarded by a comparison of ClusterType() results.
+func resourceManagerCarriedOverWhateverTheType(c *Ctx) {
+	const rule = "C10.TYPE"
+	c.Rule(rule, "a cluster update carries the resource manager's counters over whatever the cluster type (no early return on ClusterType)", 1)
+	fn := c.F("pkg/upstream/cluster", "UpdateClusterResourceManagerHandler")
+	if fn == nil {
+		c.Unresolved(rule, "cluster.UpdateClusterResourceManagerHandler")
+		return
+	}
+	n := 0
+	ord := ordCounter{}
+	for _, in := range instrsWhere(fn, isReturn) {
+		n++
+		onType := guardOn(in.Block(), func(v ssa.Value) bool {
+			cl, ok := v.(*ssa.Call)
+			return ok && methodName(cl.Common()) == "ClusterType"
+		})
+		c.Check(rule, ord.next(fn, "carry-over-not-skipped-on-type"), nearestPos(in), !onType, "this return does not depend on ClusterType()",
+			"UpdateClusterResourceManagerHandler leaves the new cluster with a fresh resource manager when the cluster type changed, while the inherited hosts - and with them the pools' releases - move to the new cluster info: the requests in flight during the update are released on a counter that never admitted them (-N for good), and the limits admit N more than configured")
+	}
+	if n == 0 {
+		c.Unresolved(rule, "returns of UpdateClusterResourceManagerHandler")
 	}
 }
